@@ -861,6 +861,11 @@ lists, mappings; servings lists with duplicates and overflow; tag lists; name/ur
 hour-based ratios, one without a minute), plus a malformed stream of random and mutated texts; every value also through the real parser as front matter or \
 `>>` entry; non-trivial = the accessor returned something; distinct = distinct request lines".into();
     let convs = converters();
+    // the hypotheses of the time theorems, checked on the converters actually used
+    for c in &convs {
+        let bad: Vec<String> = c.conv.all_units().filter(|u| u.physical_quantity == PhysicalQuantity::Time && (u.ratio == 0.0 || u.difference != 0.0 || !u.ratio.is_finite())).map(|u| u.symbol().to_string()).collect();
+        if bad.is_empty() { ctx.count("converter:time-units-linear-nonzero"); } else { ctx.notes.push(format!("converter {}: time units with zero ratio or an offset: {bad:?} (outside the hypotheses of the time theorems)", c.name)); }
+    }
     let seed = ctx.seed;
     let thorough = ctx.thorough;
     let mut run = Run { ctx, convs: &convs };
